@@ -224,6 +224,7 @@ def oracle_history(case):
     shared_dtypes = {}
     tmp = tempfile.mkdtemp(prefix="c10h-")
     kinds = set()
+    reuse_obj = None
     try:
         for step, op in enumerate(case["ops"]):
             k = op[0]
@@ -242,6 +243,36 @@ def oracle_history(case):
                         out.fail("read-changed-callers-options", "step %d: the dtypes dict given to read() was %r, is now %r" % (step, before, dt))
                         break
                     fkey = ("dtypes", ti)  # its own "first reading" (text curves differ from the default reading)
+                elif ch == "string-policies":
+                    # policies given as lists that mix a NAME with a literal substitution (the documented form): they
+                    # hold for this call only
+                    las = attempt(lasio.read, texts[ti], null_policy=["NULL", 9998],
+                                  read_policy=["run-on(.)", ("9998", "7777")])
+                    kinds.add("read-with-policy-lists")
+                    fkey = ("policies", ti)
+                elif ch == "reuse":
+                    # LASFile.read() on an object that has read other files before: the sections this text has are read
+                    # as by a fresh read (what becomes of sections only an earlier file had is not judged)
+                    if reuse_obj is None:
+                        reuse_obj = lasio.LASFile()
+                    r = attempt(reuse_obj.read, io.StringIO(texts[ti]))
+                    kinds.add("read-into-used-object")
+                    if is_raised(r):
+                        out.fail("history-read-raises|" + r.bucket, "step %d %r: %s\n%s" % (step, op, r, texts[ti]))
+                        break
+                    fresh = canonical(lasio.read(texts[ti]))
+                    c = canonical(reuse_obj)
+                    # a section the text does not have reads as empty in a fresh object and keeps the earlier file's content
+                    # in a used one: only sections with content in the fresh reading are compared
+                    keep = {kk for kk, v in fresh["sections"].items() if v.get("items") or v.get("text")}
+                    c["sections"] = {kk: v for kk, v in c["sections"].items() if kk in keep}
+                    fresh["sections"] = {kk: v for kk, v in fresh["sections"].items() if kk in keep}
+                    d = canon.diff(c, fresh, names=("read-into-used-object#%d" % step, "fresh-read"))
+                    if d:
+                        out.fail("reuse-read-differs|%s" % d[0][0], "step %d: reading text %d into a LASFile that has read other files gave a "
+                                 "different result after %r\n%s\n%s" % (step, ti, case["ops"][:step], canon.show(d), texts[ti]))
+                        break
+                    continue
                 elif ch == "stringio":
                     las = attempt(lasio.read, io.StringIO(texts[ti]))
                 elif ch == "string":
@@ -343,7 +374,7 @@ def oracle_history(case):
 
 
 OP = st.one_of(
-    st.tuples(st.just("read"), st.integers(0, 2), st.sampled_from(["stringio", "string", "path", "Path", "string-dtypes"])),
+    st.tuples(st.just("read"), st.integers(0, 2), st.sampled_from(["stringio", "string", "path", "Path", "string-dtypes", "string-policies", "reuse", "reuse"])),
     st.tuples(st.just("read"), st.integers(0, 2), st.sampled_from(["path", "Path"]), st.booleans(),
               st.sampled_from(["utf-8", "utf-8-sig", "utf-16", "utf-8-sig+encoding=utf-8", "utf-16-le", "utf-8-sig+no-autodetect"])),
     st.tuples(st.just("read"), st.integers(0, 2), st.sampled_from(["path", "Path"]), st.just(True),
@@ -385,11 +416,21 @@ def history_cases(draw):
             dotted["expect_curves"] = [["DEPT", "M"], ["COND.", "MS/M"]]  # default mnemonic_case='upper'
             ellipsis["expect_curves"] = [["DEPT", "M"], ["GR", "GAPI"]]
             pair = [dotted, ellipsis]
+        which = draw(st.integers(0, 2))
+        if which == 0:
+            # a file whose samples look like what a caller of an EARLIER read named in its own policy lists
+            nines = lastext.simple_spec([("DEPT", "M", "", "d"), ("GR", "", "", "g"), ("LITH", "", "", "l")],
+                                        [["1", "9998", "abc"], ["2", "4", "def"]])
+            nines["expect_data"] = [[1.0, 2.0], [9998.0, 4.0], ["abc", "def"]]
+            plain = lastext.simple_spec([("DEPT", "M", "", "d"), ("GR", "", "", "g")], [["1", "9998"], ["2", "5"]])
+            plain["expect_data"] = [[1.0, 2.0], [9998.0, 5.0]]
+            pair = [nines, plain]
         texts = texts[:1] + draw(st.permutations(pair))
         special = True
     ops = draw(st.lists(OP, min_size=4, max_size=14))
     if special:
         ch = st.sampled_from(["stringio", "string", "path"])
+        ops += [["read", draw(st.integers(1, 2)), "string-policies"]]
         ops += [["read", k, draw(ch)] for k in draw(st.permutations([1, 2, 1, 2]))]
     return {"texts": texts, "ops": ops}
 
